@@ -150,14 +150,14 @@ pub fn processed(out: &Outcome, root: &str) -> BTreeSet<String> {
     s
 }
 
-/// Reference build in the same root: save what is on disk at generated paths, wipe, build with
-/// `opts`, record (verdict, generated files, processed sources), wipe, restore the saved files.
+/// Reference build in the same root and from the same state: save what is on disk at
+/// non-source paths, run a normal build with `opts` on the tree as it is (leftovers included: a
+/// file that the current sources no longer generate but still read is the user's business, not
+/// a difference between modes), record (verdict, generated files, processed sources), then put
+/// the saved files back.
 pub fn reference_build(su: &Setup, current_sources: &Bytes, opts: &RunOpts) -> (Outcome, Bytes, BTreeSet<String>) {
     let now = fsx::read_tree(&su.sc.root);
     let saved: Bytes = now.into_iter().filter(|(k, _)| !current_sources.contains_key(k)).collect();
-    for p in saved.keys() {
-        let _ = std::fs::remove_file(su.sc.root.join(p));
-    }
     let mut o = opts.clone();
     o.mode = ModeS::Build;
     let out = runner::run_free(&su.sc.root, &o);
